@@ -16,11 +16,11 @@ CLAIMS = {
         ref="DESIGN.md §4 C01"),
     "C02": dict(
         tech="static analysis: push/pop typestate through the wrapper (one context for parameters, body and return), argument-forwarding and parameter-kind exhaustiveness checks (ast + CFG)",
-        text="Decides that parameters, body and return value are judged in one and the same binding context, forwarded unchanged, with synthetic signatures covering all five parameter kinds; the exists-assignment equivalence is value-level and not decided. Also: wrapping of a dataclass's __init__ is skipped only on the strength of the class's own __init__ (no inherited lookup). Also: push / pop balance and no suspension inside a context around every wrapped call (C05's clauses), so that a call's checks see that call's frame.",
+        text="Decides that parameters, body and return value are judged in one and the same binding context, forwarded unchanged, with synthetic signatures covering all five parameter kinds; the exists-assignment equivalence is value-level and not decided. Also: wrapping of a dataclass's __init__ is skipped only on the strength of the class's own __init__ (no inherited lookup). Also: push / pop balance and no suspension inside a context around every wrapped call (C05's clauses), so that a call's checks see that call's frame. Also: apply_defaults between bind and push.",
         ref="DESIGN.md §4 C02"),
     "C03": dict(
         tech="static analysis: constant folding of the dtype tables, agreement of three export lists, documented hierarchy (docs/api/array.md) vs folded sets, comparison-operator check (ast)",
-        text="Decides the table half: which dtype names each of the 34 categories contains (against the documented hierarchy) and how a name is compared; dtype-name extraction per backend depends on run-time names and is not decided. Also: no dtype name / verdict of the checked array is remembered on the annotation class or a module-level object. Also: names are compared by equality only under the test that the entry is a string; plain names are not compiled into an unanchored regex; the check reads the annotation's own dtypes, not a table of the category class.",
+        text="Decides the table half: which dtype names each of the 34 categories contains (against the documented hierarchy) and how a name is compared; dtype-name extraction per backend depends on run-time names and is not decided. Also: no dtype name / verdict of the checked array is remembered on the annotation class or a module-level object. Also: names are compared by equality only under the test that the entry is a string; plain names are not compiled into an unanchored regex; the check reads the annotation's own dtypes, not a table of the category class. Also: a category's dtypes are never re-bound after the class was defined.",
         ref="DESIGN.md §4 C03"),
     "C04": dict(
         tech="static analysis: rollback typestate on a statement CFG with Exception/BaseException edge classes (restore followed into helpers and context managers by summaries; callee parameter-write summaries), snapshot provenance and dominance, 4-slot order agreement, unconditional in-place restore (ast + CFG product exploration)",
@@ -52,7 +52,7 @@ CLAIMS = {
         ref="DESIGN.md §4 C10"),
     "C11": dict(
         tech="static analysis: control dependence of loader construction on should_instrument, predicate truth-table vs the statement, install/uninstall object identity, checker dataflow finder->loader->transformer (ast + CFG)",
-        text="Decides the predicate shape (equality or prefix with the dot separator), that instrumentation is control-dependent on it, install/uninstall pairing and per-install checker flow, that the configured names reach the finder unchanged and a possibly shared name list is never mutated in place, and the two front ends' wiring; nothing but install_import_hook (or an installer of the same shape) puts a finder on sys.meta_path; the pytest plugin never uninstalls a hook kept in a module-level variable.",
+        text="Decides the predicate shape (equality or prefix with the dot separator), that instrumentation is control-dependent on it, install/uninstall pairing and per-install checker flow, that the configured names reach the finder unchanged and a possibly shared name list is never mutated in place, and the two front ends' wiring; nothing but install_import_hook (or an installer of the same shape) puts a finder on sys.meta_path; the pytest plugin never uninstalls a hook kept in a module-level variable. Also: the pytest plugin imports nothing named on the command line before the hook is installed; the typechecker string is hashed without lossy normalisation (the hash keys the decorator lookup).",
         ref="DESIGN.md §4 C11"),
     "C12": dict(
         tech="static analysis: entry-value flag typestate (value at every exit = value at entry, incl. BaseException edges, re-entrancy via call-graph dispatch edges), class-object store census (ast + CFG + call graph)",
@@ -60,19 +60,19 @@ CLAIMS = {
         ref="DESIGN.md §4 C12"),
     "C13": dict(
         tech="static analysis: freshness (alias vs live top-of-stack) of the bindings reported on error paths, handler order for AnnotationError, stage wiring and cause-polarity truth table (ast + CFG + call graph)",
-        text="Decides that reported bindings denote the live top of the stack, AnnotationError handlers precede Exception handlers around both checks, parameter/return messages are wired to the right stage and raise TypeCheckError, cause polarity per raise site, blame in the same context, no leaked flatten flag / leaf label, no blame data memoised under a lossy rendering of the signature, the blame helper stops probing at the first failing parameter, a failed check leaves no binding that a later message would list; which parameter is blamed is otherwise value-level and not decided.",
+        text="Decides that reported bindings denote the live top of the stack, AnnotationError handlers precede Exception handlers around both checks, parameter/return messages are wired to the right stage and raise TypeCheckError, cause polarity per raise site, blame in the same context, no leaked flatten flag / leaf label, no blame data memoised under a lossy rendering of the signature, the blame helper stops probing at the first failing parameter, a failed check leaves no binding that a later message would list; which parameter is blamed is otherwise value-level and not decided. Also: the argument table has the defaults applied (apply_defaults between bind and push), so a {name} axis naming an omitted parameter is not reported as misuse.",
         ref="DESIGN.md §4 C13"),
     "C14": dict(
         tech="static analysis: interprocedural may-raise census (only ValueError from construction), guard-dominance for partial operations on the user's spec, modifier-loop and legality-matrix extraction vs the documented one (ast + CFG)",
-        text="Decides exception discipline and totality of annotation construction, the modifier loop against the documented modifier bullets, the legality matrix {fixed,symbolic,anonymous} x {variadic,anonymous,treepath,broadcastable}, that the comma / trailing-# tests see the token as written, that nothing parses or compiles a piece of the specification at construction time, and that a token is not used as a string after it was re-bound to its parsed value (raises followed through error factories); the meaning of accepted forms is C01.",
+        text="Decides exception discipline and totality of annotation construction, the modifier loop against the documented modifier bullets, the legality matrix {fixed,symbolic,anonymous} x {variadic,anonymous,treepath,broadcastable}, that the comma / trailing-# tests see the token as written, that nothing parses or compiles a piece of the specification at construction time, and that a token is not used as a string after it was re-bound to its parsed value (raises followed through error factories); the meaning of accepted forms is C01. Also: the two-variadic test of the nesting branch (identity tests against None).",
         ref="DESIGN.md §4 C14"),
     "C15": dict(
         tech="static analysis: reaching-definition and order agreement in the nesting branch, union/TypeVar table, scalar-ladder prefix agreement, lazy aliases vs docs code block (ast)",
-        text="Decides agreement clauses only: nested dims/dim_str concatenated outer-first with index_variadic shifted by the outer length, dtype intersection, ValueError on double variadic/empty intersection; every union member built through _make_array with the same category/spec (a member passed on raw is a witness); TypeVar table; scalar ladder (incl. the dim-kind table of the rank-0 test over all six kinds of dim objects); aliases equal the documented definitions.",
+        text="Decides agreement clauses only: nested dims/dim_str concatenated outer-first with index_variadic shifted by the outer length, dtype intersection, ValueError on double variadic/empty intersection; every union member built through _make_array with the same category/spec (a member passed on raw is a witness); TypeVar table; scalar ladder (incl. the dim-kind table of the rank-0 test over all six kinds of dim objects); aliases equal the documented definitions. Also: no returned field is computed from the outer dims before the nesting merge without being recomputed; for Any the array-type stage rejects exactly when shape or dtype is missing.",
         ref="DESIGN.md §4 C15"),
     "C16": dict(
         tech="static analysis: '?'-label typestate with guard-correlated product states and re-entrancy (call-graph dispatch edges), sibling agreement of treepath prefixing, label-template key disjointness (ast + CFG)",
-        text="Decides label ownership (a clear only after this activation's own set, restore instead of constant reset where re-entrant), identical treepath prefixing for single and variadic dims, key disjointness of the label template, the two AnnotationError conditions, that the label only ever builds keys (labelled keys are never taken apart) and that the leaves list has one source (positions are labels).",
+        text="Decides label ownership (a clear only after this activation's own set, restore instead of constant reset where re-entrant), identical treepath prefixing for single and variadic dims, key disjointness of the label template, the two AnnotationError conditions, that the label only ever builds keys (labelled keys are never taken apart) and that the leaves list has one source (positions are labels). Also: the PyTree check site restores every memo on every failing exit (per-leaf '?' sizes included).",
         ref="DESIGN.md §4 C16"),
     "C17": dict(
         tech="static analysis: information-flow census of every use of the checked value (only isinstance / hasattr / .shape / .dtype / forwarding) in the check functions and wrappers (ast def-use)",
@@ -84,11 +84,11 @@ CLAIMS = {
         ref="DESIGN.md §4 C18"),
     "C19": dict(
         tech="static analysis: dominance of the disable guard over bind/push/checks, truth table of the guard over its three atoms, branch table of _maybestr2bool vs the statement, env->update->attribute wiring (ast + CFG)",
-        text="Decides, for every wrapper jaxtyped hands back that opens a binding context (new-style and old-style), that the pass-through is taken iff at least one switch is on, is read per call (never at decoration time nor when a hooked module is imported / instrumented), dominates every check; the switches live in one process-wide object (no thread-local / context-local store); the switch parser equals the table in the statement (constant tables of spellings followed); the environment variable is wired to the attribute the wrapper reads, no other key writes it, nothing outside the config module writes it, lazily loaded settings do not reload it.",
+        text="Decides, for every wrapper jaxtyped hands back that opens a binding context (new-style and old-style), that the pass-through is taken iff at least one switch is on, is read per call (never at decoration time nor when a hooked module is imported / instrumented), dominates every check; the switches live in one process-wide object (no thread-local / context-local store); the switch parser equals the table in the statement (constant tables of spellings followed); the environment variable is wired to the attribute the wrapper reads, no other key writes it, nothing outside the config module writes it, lazily loaded settings do not reload it. Also: a wrapper that is a coroutine / generator function defers its guard (reported); the parser table includes the numbers 0 and 1.",
         ref="DESIGN.md §4 C19"),
     "C20": dict(
         tech="static analysis: reducer registration, no-sentinel-on-the-wire, determinacy of every class-dict field from what the reducer replays (ast def-use)",
-        text="Decides that a reducer is registered at import time for exactly every metaclass _make_array can instantiate (copyreg dispatches on the exact type), replays only picklable fields, and that every attribute of an annotation class is a function of what the reducer replays (constructor arguments), including nested annotations; by-reference resolvability of categories (C03.1a); no verdict table keyed by id()/str()/name of something a reloaded copy owns; nothing but plain literals is put on an annotation class after it was created, and no function building the namespace reads a module-level table whose stored values depend on registration order in this process (by-value serialisers ship the namespace).",
+        text="Decides that a reducer is registered at import time for exactly every metaclass _make_array can instantiate (copyreg dispatches on the exact type), replays only picklable fields, and that every attribute of an annotation class is a function of what the reducer replays (constructor arguments), including nested annotations; by-reference resolvability of categories (C03.1a); no verdict table keyed by id()/str()/name of something a reloaded copy owns; nothing but plain literals is put on an annotation class after it was created, and no function building the namespace reads a module-level table whose stored values depend on registration order in this process (by-value serialisers ship the namespace). Also: nothing process-local goes on the wire; a category's dtypes are bound in __init_subclass__ only.",
         ref="DESIGN.md §4 C20"),
 }
 
